@@ -234,7 +234,50 @@ Section Pc.
 Variable bytes : list byte.
 Variable code : list instr.
 
-Definition bdry (k : N) : Prop := aligned (skipn (N.to_nat k) bytes) (skipn (N.to_nat k) code).
+(* an offset that is not push data by the EVM's own rule (`immediates`), or the end of the code *)
+Definition imm_ok (k : N) : Prop :=
+  N.of_nat (length bytes) <= k \/ nth_error (immediates 0 bytes) (N.to_nat k) = Some false.
+
+Lemma imm_suffix : forall (bs : list byte) skip k, nth_error (immediates skip bs) k = Some false ->
+  skipn k (immediates skip bs) = immediates 0 (skipn k bs).
+Proof.
+  induction bs as [|b bs IH]; intros skip k H; [destruct k; discriminate|].
+  cbn [immediates] in *. destruct (0 <? skip) eqn:E.
+  - destruct k as [|k]; [discriminate|]. cbn [skipn nth_error] in *. now apply IH.
+  - destruct k as [|k].
+    + cbn [skipn immediates]. reflexivity.
+    + cbn [skipn nth_error] in *. now apply IH.
+Qed.
+
+Lemma imm_ok_0 : imm_ok 0.
+Proof. unfold imm_ok. destruct bytes as [|b bs]; [left; cbn; lia|right; reflexivity]. Qed.
+
+Lemma imm_ok_next k b : imm_ok k -> nth_error bytes (N.to_nat k) = Some b ->
+  imm_ok (k + 1 + (if is_push b then b - PUSH_OPCODE_BASE_VALUE else 0)).
+Proof.
+  intros [Hge|Himm] Hb.
+  { assert (nth_error bytes (N.to_nat k) = None) by (apply nth_error_None; lia). congruence. }
+  set (n := if is_push b then b - PUSH_OPCODE_BASE_VALUE else 0).
+  destruct (N.le_gt_cases (N.of_nat (length bytes)) (k + 1 + n)) as [Hle|Hlt]; [now left|]. right.
+  pose proof (imm_suffix bytes 0 _ Himm) as Hs.
+  destruct (skipn (N.to_nat k) bytes) as [|b' rest] eqn:Esk.
+  { assert (length (skipn (N.to_nat k) bytes) = 0%nat) by now rewrite Esk. rewrite skipn_length in *. lia. }
+  apply skipn_cons_nth in Esk as [Eb Erest]. rewrite Hb in Eb. injection Eb as <-.
+  cbn [immediates] in Hs. cbn [N.ltb N.compare] in Hs. fold n in Hs.
+  assert (Hlen : (length rest = length bytes - S (N.to_nat k))%nat) by (rewrite <- Erest, skipn_length; reflexivity).
+  assert (Hs1 : skipn (S (N.to_nat k)) (immediates 0 bytes) = immediates n rest).
+  { replace (S (N.to_nat k)) with (N.to_nat k + 1)%nat by lia. rewrite skipn_add, Hs. reflexivity. }
+  rewrite (immediates_split n rest) in Hs1 by lia.
+  assert (Hs2 : skipn (N.to_nat (k + 1 + n)) (immediates 0 bytes) = immediates 0 (skipn (N.to_nat n) rest)).
+  { replace (N.to_nat (k + 1 + n)) with (S (N.to_nat k) + N.to_nat n)%nat by lia.
+    rewrite skipn_add, Hs1. apply skipn_nops_app. apply repeat_length. }
+  destruct (skipn (N.to_nat n) rest) as [|b2 r2] eqn:E2.
+  { assert (length (skipn (N.to_nat n) rest) = 0%nat) by now rewrite E2. rewrite skipn_length in *. lia. }
+  cbn [immediates] in Hs2. cbn [N.ltb N.compare] in Hs2. apply skipn_cons_nth in Hs2 as [H _]. exact H.
+Qed.
+
+Definition bdry (k : N) : Prop :=
+  aligned (skipn (N.to_nat k) bytes) (skipn (N.to_nat k) code) /\ imm_ok k.
 
 Record Rpc (ip epc : N) : Prop := mk_Rpc {
   rp_le : ip <= epc;
@@ -258,7 +301,7 @@ Inductive at_bdry (k : N) : instr -> Prop :=
 
 Lemma bdry_inv k i : bdry k -> nth_error code (N.to_nat k) = Some i -> at_bdry k i.
 Proof.
-  unfold bdry. intros Ha Hi.
+  unfold bdry. intros [Ha Himm] Hi.
   remember (skipn (N.to_nat k) bytes) as bs eqn:Eb. remember (skipn (N.to_nat k) code) as is eqn:Ei.
   symmetry in Eb, Ei.
   destruct Ha as [|b i0 bs is Hp Hd Ha|b d bs is Hp Hd Ha|b rest Hp Hl].
@@ -268,7 +311,9 @@ Proof.
     apply nth_error_None in H. congruence.
   - apply skipn_cons_nth in Eb as [Eb1 Eb2]. apply skipn_cons_nth in Ei as [Ei1 Ei2].
     rewrite Hi in Ei1. injection Ei1 as ->. eapply ab_plain; eauto.
-    unfold bdry. replace (N.to_nat (k + 1)) with (S (N.to_nat k)) by lia. now rewrite Eb2, Ei2.
+    unfold bdry. split.
+    + replace (N.to_nat (k + 1)) with (S (N.to_nat k)) by lia. now rewrite Eb2, Ei2.
+    + pose proof (imm_ok_next k b Himm Eb1) as H. rewrite Hp, N.add_0_r in H. exact H.
   - apply skipn_cons_nth in Eb as [Eb1 Eb2]. apply skipn_cons_nth in Ei as [Ei1 Ei2].
     rewrite Hi in Ei1. injection Ei1 as ->.
     replace (S (N.to_nat k)) with (N.to_nat (k + 1)) in * by lia.
@@ -276,7 +321,8 @@ Proof.
     + rewrite <- Hd. symmetry. eapply skipn_app_firstn. exact Eb2.
     + intros j Hj. replace (N.to_nat j) with (N.to_nat (k + 1) + (N.to_nat j - N.to_nat (k + 1)))%nat by lia.
       eapply skipn_app_nth; [exact Ei2|]. apply nth_error_nops. lia.
-    + unfold bdry. replace (N.to_nat (k + 1 + (b - PUSH_OPCODE_BASE_VALUE)))
+    + unfold bdry. split; [|pose proof (imm_ok_next k b Himm Eb1) as H; now rewrite Hp in H].
+      replace (N.to_nat (k + 1 + (b - PUSH_OPCODE_BASE_VALUE)))
         with (N.to_nat (k + 1) + length d)%nat by lia.
       rewrite (skipn_app_more _ _ _ _ Eb2).
       replace (N.to_nat (k + 1) + length d)%nat with (N.to_nat (k + 1) + length (nops (b - PUSH_OPCODE_BASE_VALUE)))%nat
